@@ -83,9 +83,9 @@ type c06Model struct {
 	level  LoggingLevel
 }
 
-func c06Run(t *testing.T, msgs []c06Msg, hist []int, legacyOnly bool) (out verifx.SearchResult) {
+func c06Run(t *testing.T, msgs []c06Msg, hist []int, serves string) (out verifx.SearchResult) {
 	synctest.Test(t, func(t *testing.T) {
-		out = c06RunInBubble(msgs, hist, legacyOnly)
+		out = c06RunInBubble(msgs, hist, serves)
 	})
 	return out
 }
@@ -93,7 +93,10 @@ func c06Run(t *testing.T, msgs []c06Msg, hist []int, legacyOnly bool) (out verif
 // legacyOnly: the server's transport declares (ProtocolVersionSupporter) that it serves the legacy
 // versions only, as the SDK's HTTP+SSE and stateful streamable transports do: 2026-07-28 is then not
 // a supported version on this session, whatever a request's _meta says.
-func c06RunInBubble(msgs []c06Msg, hist []int, legacyOnly bool) verifx.SearchResult {
+func c06RunInBubble(msgs []c06Msg, hist []int, serves string) verifx.SearchResult {
+	// serves: what the server's transport declares it serves - "" (no declaration), "legacy" (the legacy
+	// versions only) or "modern" (2026-07-28 only: no version an initialize handshake could settle on)
+	legacyOnly, modernOnly := serves == "legacy", serves == "modern"
 	bad := func(sig, format string, a ...any) verifx.SearchResult {
 		return verifx.SearchResult{Bad: fmt.Sprintf(format, a...), Sig: "c06 " + sig}
 	}
@@ -130,6 +133,9 @@ func c06RunInBubble(msgs []c06Msg, hist []int, legacyOnly bool) verifx.SearchRes
 	var st Transport = st0
 	if legacyOnly {
 		st = &c07Advertise{Transport: st0, set: c07Legacy}
+	}
+	if modernOnly {
+		st = &c07Advertise{Transport: st0, set: []string{"2026-07-28"}}
 	}
 	ss, err := s.Connect(ctx, st, nil)
 	if err != nil {
@@ -254,7 +260,11 @@ func c06RunInBubble(msgs []c06Msg, hist []int, legacyOnly bool) verifx.SearchRes
 		var r *verifx.SearchResult
 		switch msg.kind {
 		case "initialize":
-			if !m.inited {
+			if modernOnly && !m.inited {
+				// no legacy version to settle on: refused, and a refused initialize leaves no trace
+				gateReject = false
+				r = mustReject(-32022)
+			} else if !m.inited {
 				if r = mustServe(); r == nil {
 					if ss.InitializeParams() == nil {
 						r2 := bad("initialize-not-recorded", "%s: accepted but InitializeParams() is nil", where)
@@ -381,12 +391,17 @@ func TestVerifC06(t *testing.T) {
 	env.RunSearch(res, &verifx.Search{
 		Name: "wire-history-search", NumOps: len(msgs), OpName: func(i int) string { return msgs[i].name },
 		MaxDepth: env.Pick(6, 7), ShallowDepth: env.Pick(2, 4),
-		Run: func(h []int) verifx.SearchResult { return c06Run(t, msgs, h, false) },
+		Run: func(h []int) verifx.SearchResult { return c06Run(t, msgs, h, "") },
 	})
 	env.RunSearch(res, &verifx.Search{
 		Name: "wire-history-search/legacy-only-transport", NumOps: len(msgs), OpName: func(i int) string { return msgs[i].name },
 		MaxDepth: env.Pick(5, 6), ShallowDepth: env.Pick(2, 3),
-		Run: func(h []int) verifx.SearchResult { return c06Run(t, msgs, h, true) },
+		Run: func(h []int) verifx.SearchResult { return c06Run(t, msgs, h, "legacy") },
+	})
+	env.RunSearch(res, &verifx.Search{
+		Name: "wire-history-search/modern-only-transport", NumOps: len(msgs), OpName: func(i int) string { return msgs[i].name },
+		MaxDepth: env.Pick(4, 6), ShallowDepth: env.Pick(2, 3),
+		Run: func(h []int) verifx.SearchResult { return c06Run(t, msgs, h, "modern") },
 	})
 	// The same histories with every params object spelled differently - the member name _meta and the
 	// reverse-DNS keys inside it written with JSON escapes (\u005f, \/), insignificant white space: the
@@ -399,7 +414,7 @@ func TestVerifC06(t *testing.T) {
 	env.RunSearch(res, &verifx.Search{
 		Name: "wire-history-search/json-spellings", NumOps: len(spelled), OpName: func(i int) string { return spelled[i].name },
 		MaxDepth: env.Pick(4, 6), ShallowDepth: env.Pick(2, 3),
-		Run: func(h []int) verifx.SearchResult { return c06Run(t, spelled, h, false) },
+		Run: func(h []int) verifx.SearchResult { return c06Run(t, spelled, h, "") },
 	})
 	env.Finish(res)
 }
